@@ -463,6 +463,16 @@ def run(ctx):
             elif isinstance(v_, ast.Call) and isinstance(v_.func, ast.Name):
                 by_field = {k.arg: role_of(k.value) for k in v_.keywords if k.arg}
                 by_pos = {i: role_of(e) for i, e in enumerate(v_.args)}
+                # a named tuple is still a tuple: positions follow the field list of its definition
+                ntdef = des.module.globals.get(v_.func.id)
+                if isinstance(ntdef, ast.Call) and norm(ntdef.func).split('.')[-1] == 'namedtuple' and len(ntdef.args) == 2:
+                    f_ = ntdef.args[1]
+                    fields = [e.value for e in f_.elts] if isinstance(f_, (ast.List, ast.Tuple)) else f_.value.replace(',', ' ').split() if isinstance(f_, ast.Constant) else []
+                    for i, fld in enumerate(fields):
+                        if fld in by_field:
+                            by_pos[i] = by_field[fld]
+                        elif i in by_pos:
+                            by_field[fld] = by_pos[i]
         local_role = {}
         holders = {}
         for n in walk_own(ro.node):
